@@ -321,8 +321,14 @@ def make_scenarios(p, rng):
             kind = rng.random()
             if kind < 0.7:
                 t.scen.setdefault(sid, {})["effort"] = max(q.G, int(t.effort * rng.choice([0.5, 2, 3, 1])) // q.G * q.G)
-            elif t.start is None and not t.deps:
+            elif t.start is None:
+                # a start of its own in this scenario (and in the scenarios below it): a pin, even if the task has predecessors
                 t.scen.setdefault(sid, {})["start"] = q.start + timedelta(days=rng.randint(1, 4), hours=9)
+    if len(ids) >= 1 and rng.random() < 0.35:
+        # written for the ROOT scenario with its prefix: inherited by every scenario
+        cand = [t for t in leaves if t.start is None and "start" not in t.scen.get(ids[0], {})]
+        if cand:
+            rng.choice(cand).scen.setdefault("plan", {})["start"] = q.start + timedelta(days=rng.randint(1, 4), hours=rng.choice([9, 13]))
     return q
 
 
